@@ -739,7 +739,7 @@ def _collect_frames(lexicon: _AnyLexicon) -> list[lmf.SyntacticBehaviour]:
     # lexicon, so lookup syntactic behaviours by the frame string
     synbhrs: dict[str, lmf.SyntacticBehaviour] = {
         frame['subcategorizationFrame']: {
-            'id': frame['id'],
+            'id': frame.get('id'),
             'subcategorizationFrame': frame['subcategorizationFrame'],
             'senses': list(frame.get('senses', [])),
         }
